@@ -227,6 +227,16 @@ def sign_factor_range(e, ex: Exec):
 
 
 def run(ctx, rule, qual):
+    """The obligations of the eigen-solver algebra.  The solver is interpreted *symbolically as a whole* (rules/C12_eigen.py on top of
+    rules/C12_sym.py: helper functions are followed, conditions are symbolic, selections are registered atoms, all roles are read off the
+    values), which does not depend on statement order, local names, scalar-vs-vector selects or the split into helper functions.  The
+    statement-wise lowering below (`run_statementwise`) is kept as the reference implementation of the same obligations; it reads
+    straight-line code of one function only."""
+    from . import C12_eigen
+    return C12_eigen.run(ctx, rule, qual)
+
+
+def run_statementwise(ctx, rule, qual):
     nu = ctx.need(qual)
     t = nu.params()[0]
     pre = Exec(nu).run()
